@@ -21,7 +21,12 @@ already inside `_send` (a proxy finalizer running during transmission) is a *fre
 created by `reenter`; its parent is suspended (`wait`) until the nested call has returned, exactly as
 the nested Python call suspends its caller.
 
-Ghost fields (never read by `step`): `out`, `appended`, `prog`, `holder`.
+Transport failure: `breakTransport` kills the stream (every rpyc stream closes itself when a write fails, so
+every later write fails too).  A write on a dead stream raises out of `Channel.send`: the popped datum is
+dropped, the `finally` releases the lock (pc `releaseX`) and the exception leaves `_send` — the loop is NOT
+re-entered, so whatever other threads queued meanwhile stays queued.
+
+Ghost fields (never read by `step`): `out`, `lost`, `stub`, `appended`, `started`, `prog`, `holder`, `root`.
 No `import`: this file is compiled into the driver.
 -/
 namespace Rpyc.Conc.SendQ
@@ -56,12 +61,18 @@ inductive PC where
   | pop                  -- holds the lock, about to `self._send_queue.pop(0)`
   | write                -- holds the lock, inside `self._channel.send(data)`, about to do stream write number `nw`
   | release              -- holds the lock, about to `self._sendlock.release()` (the `finally`)
+  | releaseX             -- holds the lock, `Channel.send` raised: about to run the `finally` with the exception in flight
   | crash                -- an exception left `_send` (`IndexError` from `pop(0)`, `RuntimeError` from `release()`)
   deriving DecidableEq, Repr
 
 /-- the pcs at which a thread holds the lock -/
 def inCS : PC → Bool
-  | .recheck | .pop | .write | .release => true
+  | .recheck | .pop | .write | .release | .releaseX => true
+  | _ => false
+
+/-- the pcs at which a thread is inside `_send` and has already appended its datum -/
+def pastAppend : PC → Bool
+  | .check | .tryLock | .recheck | .pop | .write | .release | .releaseX => true
   | _ => false
 
 structure St where
@@ -70,8 +81,13 @@ structure St where
   hand : Option Item           -- the lock holder's local `data` while it is being transmitted
   nw : Nat                     -- stream writes already done for `hand`
   wire : List Piece            -- everything written to the stream, in order
+  dead : Bool                  -- the transport has failed: every stream write raises from now on
   out : List Item              -- ghost: items completely transmitted, in order
+  lost : List Item             -- ghost: items popped and dropped by a failed write, in order
+  stub : List Piece            -- ghost: the pieces of the packet that was cut by the failure
   appended : List Item         -- ghost: every item ever appended, in order
+  started : List Item          -- ghost: every `_send` call, in the order the calls started
+  root : Tid → Tid             -- ghost: the OS thread a logical thread runs on (a nested activation runs on its parent's)
   holder : Option Tid          -- ghost: which logical thread took the lock
   pc : Tid → PC
   todo : Tid → List Msg        -- the `_send` calls the thread has still to start
@@ -89,7 +105,7 @@ def step (s : St) (t : Tid) : Option St :=
   | .idle =>
     match s.todo t with
     | [] => none
-    | m :: rest => some ((s.setTodo t rest).setPc t (.append m))
+    | m :: rest => some (({ s with started := s.started ++ [(t, m)] }.setTodo t rest).setPc t (.append m))
   | .append m =>
     some ({ s with queue := s.queue ++ [(t, m)], appended := s.appended ++ [(t, m)] }.setPc t .check)
   | .check =>
@@ -112,7 +128,10 @@ def step (s : St) (t : Tid) : Option St :=
     match s.hand with
     | none => some (s.setPc t .crash)
     | some h =>
-      if s.nw + 1 < nparts h then
+      if s.dead then                                                           -- EOFError out of `Channel.send`
+        some ({ s with hand := none, nw := 0, lost := s.lost ++ [h],
+                       stub := s.stub ++ (pieces h).take s.nw }.setPc t .releaseX)
+      else if s.nw + 1 < nparts h then
         some { s with wire := s.wire ++ [(h, s.nw)], nw := s.nw + 1 }
       else
         some ({ s with wire := s.wire ++ [(h, s.nw)], nw := 0, hand := none, out := s.out ++ [h] }.setPc t .release)
@@ -120,6 +139,10 @@ def step (s : St) (t : Tid) : Option St :=
     match s.lock with
     | true => some ({ s with lock := false, holder := none }.setPc t .check)
     | false => some (s.setPc t .crash)                                        -- RuntimeError: release unlocked lock
+  | .releaseX =>
+    match s.lock with
+    | true => some ({ s with lock := false, holder := none }.setPc t .idle)    -- the exception leaves `_send`
+    | false => some (s.setPc t .crash)
   | .crash => none
 
 /-- thread `p`, wherever it is, calls `_send(m)` re-entrantly: the nested activation is the fresh
@@ -128,7 +151,11 @@ def reenter (s : St) (p : Tid) (m : Msg) : St :=
   { s with todo := fun u => if u = s.next then [m] else s.todo u,
            prog := fun u => if u = s.next then [m] else s.prog u,
            wait := fun u => if u = p then some s.next else s.wait u,
+           root := fun u => if u = s.next then s.root p else s.root u,
            next := s.next + 1 }
+
+/-- the transport fails (peer gone, socket error): from now on every stream write raises -/
+def breakTransport (s : St) : St := { s with dead := true }
 
 /-- every `_send` call of the thread has returned -/
 def isDone (s : St) (t : Tid) : Prop := s.pc t = .idle ∧ s.todo t = []
@@ -137,18 +164,30 @@ def isDone (s : St) (t : Tid) : Prop := s.pc t = .idle ∧ s.todo t = []
 def blocked (s : St) (p : Tid) : Prop := ∃ c, s.wait p = some c ∧ ¬ isDone s c
 
 def init (n : Nat) (prog : Tid → List Msg) : St :=
-  { queue := [], lock := false, hand := none, nw := 0, wire := [], out := [], appended := [], holder := none,
+  { queue := [], lock := false, hand := none, nw := 0, wire := [], dead := false, out := [], lost := [], stub := [],
+    appended := [], started := [], root := fun t => t, holder := none,
     pc := fun _ => .idle,
     todo := fun t => if t < n then prog t else [],
     prog := fun t => if t < n then prog t else [],
     wait := fun _ => none, next := n }
 
-/-- all interleavings: any non-suspended thread executes its next line, or starts a nested send -/
+/-- all interleavings: any non-suspended thread executes its next line, or starts a nested send (anywhere),
+or the transport fails -/
 inductive Reachable (n : Nat) (prog : Tid → List Msg) : St → Prop where
   | init : Reachable n prog (init n prog)
   | step {s s' : St} (t : Tid) : Reachable n prog s → ¬ blocked s t → step s t = some s' → Reachable n prog s'
   | reenter {s : St} (p : Tid) (m : Msg) : Reachable n prog s → ¬ blocked s p → p < s.next →
       Reachable n prog (reenter s p m)
+  | brk {s : St} : Reachable n prog s → Reachable n prog (breakTransport s)
+
+/-- the same, but a nested send starts only while its parent is inside `_send` PAST the append (in
+particular at every point where the parent holds the lock, e.g. inside the transport write) -/
+inductive ReachableR (n : Nat) (prog : Tid → List Msg) : St → Prop where
+  | init : ReachableR n prog (init n prog)
+  | step {s s' : St} (t : Tid) : ReachableR n prog s → ¬ blocked s t → step s t = some s' → ReachableR n prog s'
+  | reenter {s : St} (p : Tid) (m : Msg) : ReachableR n prog s → ¬ blocked s p → p < s.next →
+      pastAppend (s.pc p) = true → ReachableR n prog (reenter s p m)
+  | brk {s : St} : ReachableR n prog s → ReachableR n prog (breakTransport s)
 
 /-! ### observations used by the theorems -/
 
@@ -157,6 +196,9 @@ def partialPkt (s : St) : List Piece :=
   match s.hand with
   | some h => (pieces h).take s.nw
   | none => []
+
+/-- the items of OS thread `r` in a list of items, in order -/
+def onThread (s : St) (r : Tid) (l : List Item) : List Item := l.filter (fun it => s.root it.1 == r)
 
 /-- messages appended so far by thread `t`, in order -/
 def issued (s : St) (t : Tid) : List Msg := (s.appended.filter (fun it => it.1 == t)).map (·.2)
@@ -180,12 +222,14 @@ def blockedB (s : St) (p : Tid) : Bool :=
 inductive Ev where
   | run (t : Tid)
   | reent (p : Tid) (m : Msg)
+  | brk
   deriving Repr
 
 /-- executable `Reachable` step (refuses suspended threads and unused thread ids) -/
 def exec (s : St) : Ev → Option St
   | .run t => if blockedB s t then none else step s t
   | .reent p m => if blockedB s p then none else if p < s.next then some (reenter s p m) else none
+  | .brk => some (breakTransport s)
 
 def execAll (s : St) : List Ev → Option St
   | [] => some s
